@@ -1593,6 +1593,11 @@ class Builtins:
         r, st2 = self.alloc(st, HObj("obj", None, None, dict(h.fields), {"is_state_dict": True}))
         return k(VFunc("objdict", ref=r), st2)
 
+    def m_objdict_items(self, d, args, kwargs, st, k):
+        # a dictionary with statically known string keys (keyword arguments, __dict__ views): its items in insertion order
+        h = st.heap[d.ref.oid]
+        return k(VTuple([VTuple([VStr(const=n), v]) for n, v in h.fields.items()]), st)
+
     def m_objdict_pop(self, d, args, kwargs, st, k):
         key = args[0]
         if not (isinstance(key, VStr) and key.const is not None):
